@@ -96,14 +96,16 @@ _ATTR_K = ['k08_priority', 'k08_priority_new', 'k08_use_candidate', 'k08_ice_con
 
 PROPS['C19'] = {
     'level': 'proof',
-    'vx': [{'unit': 'parse', 'functions': ['MessageType :: from_bytes', 'get_type', 'transaction_id', 'MessageHeader :: from_bytes', 'From<u128>']}],
-    'kx': ['k19_class_method', 'k19_from_bytes_all', 'k19_tid_mask', 'k17_header_from_bytes'],
+    'vx': [{'unit': 'parse', 'functions': ['MessageType :: from_bytes', 'get_type', 'transaction_id', 'MessageHeader :: from_bytes', 'From<u128>']},
+           {'unit': 'builder', 'functions': ['MessageType :: write_into', "MessageBuilder<'a> :: write_into"]}],
+    'kx': ['k19_class_method', 'k19_from_bytes_all', 'k19_tid_mask', 'k17_header_from_bytes', 'k_shim_u128'],
     'bx': ['c19'],
     'rule': 'Kani complete harnesses (loop-free / fixed trip count over full-domain symbolic inputs) + Verus VCs of unit parse.',
     'proved': ['all 4x4096 (class, method): type field == RFC 8489 s5 interleaving written bit by bit; class()/method() invert it; wire form round-trips',
                'all 65536 field values (and slice lengths 0..4): refused NotStun <=> top two bits set; every other value decodes to a unique (class, method)',
-               'TransactionId::from(x) == x mod 2^96 for all u128; header decoder reads the id from bytes 8..20; Message::transaction_id reads bytes 8..20 (Verus)'],
-    'bounded': ['header writer (MessageBuilder::write_into) places cookie and id: BX', 'generated ids fit in 96 bits: BX sampling (rand is outside every contract; follows from the mask)'],
+               'TransactionId::from(x) == x mod 2^96 for all u128; header decoder reads the id from bytes 8..20; Message::transaction_id reads bytes 8..20 (Verus)',
+               '(Verus, unit builder) MessageBuilder::write_into places the type field in bytes 0..2, the magic cookie in 4..8 and the low 96 bits of the transaction id big-endian in 8..20 ([C19.header]); MessageType::write_into'],
+    'bounded': ['build() (= write_into into a fresh vector; iterator sum): BX', 'generated ids fit in 96 bits: BX sampling (rand is outside every contract; follows from the mask)'],
     'trusted': _PARSE_TRUST + _KX_TRUST,
 }
 PROPS['C13'] = {
@@ -142,15 +144,16 @@ PROPS['C08'] = {
 PROPS['C12'] = {
     'level': 'exploration',
     'trusted_extra': ['sub-slice write shims slice_copy_at / slice_fill_at / be_write_uN_at_slice (vx/shims/slices.rs; cross-checked by KX k_shim_slices), String::as_bytes/len = UTF-8 encoding (vx/shims/string.rs)'],
-    'vx': [{'unit': 'writers'}, {'unit': 'attrs', 'functions': ['to_raw', 'length', 'get_type', "RawAttribute<'a> :: new", 'padded']}],
-    'kx': ['k_shim_slices', 'k_shim_write_u16'] + ['k12_raw_attribute'] + [k for k in _ATTR_K if k not in ('k_check_len', 'k08_error_code_new', 'k08_unknown_attributes_small')],
+    'vx': [{'unit': 'writers'}, {'unit': 'attrs', 'functions': ['to_raw', 'length', 'get_type', "RawAttribute<'a> :: new", 'padded']}, {'unit': 'builder', 'functions': ['write_into']}],
+    'kx': ['k_shim_slices', 'k_shim_write_u16', 'k_shim_u128'] + ['k12_raw_attribute'] + [k for k in _ATTR_K if k not in ('k_check_len', 'k08_error_code_new', 'k08_unknown_attributes_small')],
     'bx': ['c12'],
     'rule': 'Kani harnesses: helper check_writers (in-place writer vs RFC layout vs raw conversion, 0xAA-filled oversize buffer, every shorter buffer) on every decodable value of the fixed-size types; BX for variable-length types and builders.',
     'proved': ['(Verus, unit writers, values of ANY length) AttributeWriteExt::write_into: destination shorter than the padded length => Err(TooSmall{expected: padded, actual}) and nothing written; otherwise exactly the padded TLV (type, declared length == value length, value, zero padding) and nothing beyond it is touched, the padded length returned',
                '(Verus) write_into_unchecked == RFC TLV layout for raw attributes, USERNAME, REALM, NONCE, SOFTWARE, ALTERNATE-DOMAIN, MESSAGE-INTEGRITY, MESSAGE-INTEGRITY-SHA256 (type invariant: multiple of 4), USERHASH, USE-CANDIDATE, PRIORITY, ICE-CONTROLLED, ICE-CONTROLLING; AttributeHeader::write_into, write_header(_unchecked)',
                '(Verus) RawAttribute::to_bytes == the same padded TLV; to_raw() of the string types carries the type and exactly the value bytes (unit attrs) - so in-place writing and raw conversion + serialisation give identical bytes',
-               '(Kani, complete) fixed-size types incl. FINGERPRINT, XOR-MAPPED-ADDRESS, ALTERNATE-SERVER, PASSWORD-ALGORITHM: write_into == RFC layout == to_raw(); every shorter destination => TooSmall, destination untouched'],
-    'bounded': ['ERROR-CODE, UNKNOWN-ATTRIBUTES, PASSWORD-ALGORITHMS writers (helpers take `&mut dest[k..]` sub-slices: no Verus spec): BX', 'MessageBuilder build/write_into/into_owned/clone (dyn AttributeWrite, SmallVec): BX'],
+               '(Kani, complete) fixed-size types incl. FINGERPRINT, XOR-MAPPED-ADDRESS, ALTERNATE-SERVER, PASSWORD-ALGORITHM: write_into == RFC layout == to_raw(); every shorter destination => TooSmall, destination untouched',
+               '(Verus, unit builder, attribute lists of ANY length) MessageBuilder::write_into: a destination shorter than byte_len() => Err(TooSmall{expected: byte_len, actual}) and nothing written; an exact or larger one receives header + TLVs, the length is reported and nothing beyond it is touched'],
+    'bounded': ['ERROR-CODE, UNKNOWN-ATTRIBUTES, PASSWORD-ALGORITHMS writers: BX', 'MessageBuilder build() == write_into() bytes, byte_len (iterator sum; assumed in VX), into_owned/clone (dyn AttributeWrite -> to_raw): BX'],
     'trusted': _KX_TRUST,
 }
 
@@ -231,15 +234,18 @@ PROPS['C20'] = {
 _BX_TRUST = ['BX reference implementations (CRC-32, MD5, SHA-1, SHA-256, HMAC, TLV decoder/encoder, abstract agent) written for this harness from the RFCs / property statements; self-tested against published vectors and python hashlib/zlib at setup']
 PROPS['C03'] = {
     'level': 'exploration',
-    'vx': [{'unit': 'layout'}, {'unit': 'writers', 'functions': ['write_into', 'write_into_unchecked', 'to_bytes', 'write_header']}],
+    'vx': [{'unit': 'layout'}, {'unit': 'writers', 'functions': ['write_into', 'write_into_unchecked', 'to_bytes', 'write_header']}, {'unit': 'builder', 'functions': ['write_into']}],
     'bx': ['c03'],
     'technique': 'Verus: spec-level round-trip theorem over the verified parser/writer contracts; bounded stand-in (execution of the real MessageBuilder against an independent serialiser + reference decoder) for the builder itself',
     'rule': 'see engines.bx[0].rule',
     'proved': ['(unit layout, spec level) theorem_layout_wellformed: header + concatenation of padded TLVs of any attribute list obeying the ordering rules (with FINGERPRINT values given by the CRC spec function) within the 16-bit length field is a well-formed message: length a multiple of four, header length field = length - 20, accepted by the verified parser contract (wf_message); lemma_layout_tail_ok for every tail',
                '(unit writers) every attribute writer used by the builder produces exactly tlv_bytes(type, value) (12 typed + raw; see C12)',
-               '(in C02/C10) the parser accepts exactly the well-formed buffers and exposes them faithfully - so "parses back identically" reduces to "build() concatenates header and attribute TLVs as specified", which is the bounded part'],
-    'bounded': ['MessageBuilder::{build,write_into,byte_len,add_*} produce the specified layout: BX random builder programs (dyn AttributeWrite + SmallVec + iterator sums are outside the Verus subset; Kani exhausted 15 min / 13 GB on a one-attribute builder)'],
-    'trusted': _BX_TRUST,
+               '(unit builder) MessageBuilder::write_into, for attribute lists of ANY length: into an exact or larger destination it writes header20(type, body length, magic cookie, 96-bit transaction id) followed by the padded TLVs of the attributes in order and reports exactly that length (so length = 20 + a sum of multiples of four, header length field = length - 20), touching nothing beyond it; AttrOrRaw::write_into dispatches to the two writers; MessageType::write_into',
+               '(in C02/C10) the parser accepts exactly the well-formed buffers and exposes them faithfully - so "parses back identically" reduces to "the builder concatenates header and attribute TLVs as specified" (now proved for write_into) plus the sealing values'],
+    'bounded': ['byte_len (iterator map/sum) == 20 + padded TLV sizes: assumed in VX, BX compares it with build().len() and the independent serialiser',
+                'build() (vec![0; byte_len] then write_into; iterator sum), the sealing workers (HMAC/CRC over build()), into_owned/clone: BX random builder programs',
+                'typed value equality after the round trip for ERROR-CODE / UNKNOWN-ATTRIBUTES / PASSWORD-ALGORITHMS: BX'],
+    'trusted': _BX_TRUST + ['AttributeWriteExt::write_into on dyn AttributeWrite / RawAttribute: assumed in unit builder with the contract proved in unit writers (same text); be_write_u128_at_slice / be_write_u16_slice shims (KX k_shim_u128)'],
 }
 PROPS['C11'] = {
     'level': 'exploration',
@@ -275,7 +281,7 @@ for _p in ('C01', 'C02', 'C05', 'C06', 'C07', 'C08', 'C09', 'C10', 'C12', 'C13',
 LEVEL_TEXT = {
  'C01': "Proof: Verus discharges every index/slice/arithmetic/unwrap/unreachable/termination obligation of the decoding entry points (whole message, header, type, raw attribute, 14 typed decoders, iterator, validate_integrity) for ALL byte strings, with precondition `true` on the bytes (representation invariant wf_message for methods on an accepted message); Kani covers the remaining 5 typed decoders completely. Formatting, policing and tracing-subscriber clauses are outside both verifiers and are run by the bounded stand-in (catch_unwind + watchdog), listed as bounded. One known finding (D8) is reported as KNOWN-FINDING.",
  'C02': "Proof: `Message::from_bytes` is verified `Ok <==> wf_message(bytes)` for buffers of every length against a recursive spec predicate written from the statement (not from the code); header fields, the exposed attribute stream (iterator) and the header/declared-length error cases are postconditions. Lookups through iterator adaptors and the exact variant of interior rejections are decided by the bounded differential against an independent reference decoder.",
- 'C03': "Exploration: MessageBuilder (dyn AttributeWrite + SmallVec + iterator sums) is outside Verus and exhausts Kani; the builder side is a bounded stand-in (random builder programs vs an independent serialiser with independent HMAC/CRC). The parser side it round-trips through is proved under C02/C10, and the per-attribute writers under C12.",
+ 'C03': "Exploration: MessageBuilder::write_into is verified by Verus to write header + padded TLVs of the attribute list in order for lists of any length (per-attribute writers proved under C12), and the spec-level theorem shows that this layout is accepted by the verified parser and has the stated length properties; the sealing workers (HMAC/CRC over build()), byte_len/build (iterator sums), into_owned and typed-value equality for three list-valued types remain a bounded stand-in (random builder programs vs an independent serialiser with independent HMAC/CRC) - hence exploration.",
  'C04': "Proof: `Message::validate_integrity` is verified for every accepted message and every credential against the RFC 8489 s14.5/14.6 specification (which exposed attribute is checked, HMAC input = prefix with the length field set to the end of that attribute, truncated SHA-256 lengths, MissingAttribute) with HMAC/MD5 as uninterpreted functions. That the hmac/sha crates compute those functions, the key derivation and tamper-evidence on concrete messages are bounded (independent HMAC-SHA1/SHA256/MD5 implementation).",
  'C05': "Exploration: whole-view postconditions of send / handle_stun / take_outstanding_request / request_transaction / cancel / StunRequestState::poll and the exactly-once theorem over them are proved by Verus; the one link that is not (StunAgent::poll's `values_mut` loop, which turns a per-request verdict into removal) is decided by the bounded stand-in stepping the real agent against an abstract agent - so the property as a whole is claimed at exploration.",
  'C06': "Exploration: the per-request schedule (StunRequestState::new defaults and poll for schedules of any length and all instants) is proved by Verus; configure_timeout (iterator map/fold over Duration) and the agent-level minimum over transactions are bounded (exhaustive configuration grid driven by on-time polls, random histories with early/exact/late polls at microsecond resolution).",
@@ -284,7 +290,7 @@ LEVEL_TEXT = {
  'C09': "Proof: an accepted buffer with a FINGERPRINT at offset o satisfies value == crc32(bytes[..o] with length field o+8-20) ^ 0x5354554e and o+8 == len (clause fp_ok of wf_message, verified for all buffers); XOR constant by Kani for all 2^32 values. That Fingerprint::compute is CRC-32/ISO-HDLC, the builder side and the corruption sweeps are bounded.",
  'C10': "Proof: the iterator is verified to yield exactly the exposure rule of the statement on every accepted message; the 'hence' clauses (non-sealing exposed attributes lie before the end of the first integrity attribute; prefix stability) are spec-level lemmas; validate_integrity checks an exposed attribute over that prefix (C04). Lookups through `find`/`any` are bounded.",
  'C11': "Exploration: the four guard functions of the real MessageBuilder are verified by Verus against the ordering rules of the statement (refused exactly when ..., refused => builder unchanged, accepted => appended), but over ASSUMED contracts for the two iterator-adaptor query helpers and the two sealing workers (SmallVec/dyn/HMAC are outside the verifier); those assumptions and the whole-sequence statement are decided by exhaustive operation sequences up to length 5/6 over the sealing alphabet plus random programs on the real builder - hence exploration.",
- 'C12': "Exploration: for raw attributes and 12 typed attributes the in-place writer, the size guard of write_into and to_bytes are proved equal to the RFC TLV layout for values of any length (Verus), 4 more types by Kani; ERROR-CODE/UNKNOWN-ATTRIBUTES/PASSWORD-ALGORITHMS writers and every MessageBuilder path are bounded - hence exploration.",
+ 'C12': "Exploration: for raw attributes and 12 typed attributes the in-place writer, the size guard of write_into and to_bytes are proved equal to the RFC TLV layout for values of any length (Verus), 4 more types by Kani; MessageBuilder::write_into's guard / exact-or-larger / nothing-beyond clauses are proved for attribute lists of any length (Verus). ERROR-CODE/UNKNOWN-ATTRIBUTES/PASSWORD-ALGORITHMS writers, build() vs write_into and into_owned()/clone() are bounded - hence exploration.",
  'C13': "Proof: complete Kani harnesses over all IPv4/IPv6 addresses x ports x transaction ids (fixed trip-count loops unwound with assertions): round trip, RFC wire bytes, other transaction id.",
  'C14': "Proof: push_data/pull_data/take verified against the abstract pull step; the stream-level statement (any frame list, any chunking, any interleaving) is theorem_history, an induction over those contracts (unique decoding of the length-prefixed stream).",
  'C15': "Proof: whole-set postconditions on validated_peers for every operation in Verus and theorem_peers (monotone; validated exactly by an Incoming/Deliver event from that address). StunAgent::poll never names the set (bounded confirmation).",
